@@ -74,6 +74,10 @@ def make_spec(run_seed, tier, prop, choice_weights=None, forced_prob=0.0, branch
         spec["warmup"] = {"text": warmup, "seed": rs.randrange(1000)}
     if text.startswith("{[]") and text.count("{") == 1 and text.rstrip().endswith("|") and "[]}" in text and rnd.random() < 0.35:
         spec["entry"] = "stochastic"  # the same string through the user-facing Stochastic class
+    if rs.random() < 0.06:
+        # the audited generation follows one that was aborted half-way on the same parsed object: the caller's generator
+        # raises (RuntimeError or KeyboardInterrupt) at its k-th call
+        spec["abort_first"] = {"at": rs.choice([0, 1, 2, 3, 5, 8, 13, 21, 34]), "how": rs.choice(["raise", "interrupt"]), "seed": rs.randrange(1 << 40)}
     if rs.random() < 0.12:
         spec["again"] = rs.randrange(1 << 40)  # a second, fully audited generation from the same parsed object
     if "entry" not in spec and rs.random() < 0.06:
@@ -199,8 +203,20 @@ def execute(spec, props=None):
             resolved = json.loads(json.dumps(spec))
             resolved["forced"] = {"mode": "values", "values": forced_values}
             resolved["sched"]["script"] = sched.get("script")
+    reuse = None
+    if spec.get("abort_first") and spec.get("entry", "molecule") == "molecule":
+        ab = spec["abort_first"]
+        sk0 = {"seed": ab["seed"], "choice_policy": "uniform_support", "draw_policy": "natural", "script": None, "budget": 6000,
+               "faults": {ab["at"]: ab["how"]}}
+        out0 = genrun.run_molecule(text, sk0, props=(), embed="stub", cap_mass=spec.get("cap_mass"), wall=60, ast=ast)
+        if out0.harness_error:
+            return {"harness_error": out0.harness_error, "violations": []}
+        if out0.sched is not None and out0.sched.fired:
+            stats["fault:rng_" + ab["how"]] = 1
+            reuse = out0.mol_obj
+        stats["aborted_first_generations"] = 1
     out = genrun.run_molecule(text, sched, props=props, embed=spec.get("embed", "stub"), forced_draws=forced_values,
-                              cap_mass=spec.get("cap_mass"), wall=90, ast=ast, entry=spec.get("entry", "molecule"))
+                              cap_mass=spec.get("cap_mass"), wall=90, ast=ast, entry=spec.get("entry", "molecule"), reuse_obj=reuse)
     if out.harness_error:
         return {"harness_error": out.harness_error, "violations": []}
     if isinstance(out.exc, WallTimeout):
